@@ -60,6 +60,7 @@ ROWS = [
  ("C18", "persist/checking/not-what-was-saved", "fixed", "--all --write left account lists", "'stmt --all --write' left the saved account list of a type of which the server lists no ACTIVE account in ofxget.cfg: the next run without --all requested those accounts again (reported by a seeding sub-agent; also persist/<other list>/not-what-was-saved)"),
  ("C10", "Decimal/inverse-broken", "fixed", "fixed-scale decimals beyond 28 digits", "a fixed-scale Decimal value with more than 28 digits was accepted and written, but reading its text raised InvalidOperation (quantize under the thread's default context); reported by a seeding sub-agent on the unchanged tree"),
  ("C08", "accepted/second-root", "fixed", "a second top-level element was only refused by the C implementation", "with the pure-Python xml.etree (no _elementtree accelerator; one shard in eight runs so) a body with a second top-level element returned the first element's tree; reported by a seeding sub-agent"),
+ ("C04", "sonrq-credentials-rule-not-in-force/kwargs/SONRQ.none", "fixed", "SONRQ checked its credentials rule with assert", "under python -O SONRQ accepted neither or both of USERID+USERPASS / USERKEY (the rule was a pair of asserts inside try/except AssertionError); reported by a seeding sub-agent"),
  ("C06", "caller-string-entity-decoded", "known", None, "a user id / password / account id / ORG / FID... that the CALLER passes and that contains an OFX entity sequence (e.g. password 'a&lt;b' or account 'x&amp;y') is entity-decoded by String.convert() when the request model is built, so the request carries 'a<b' / 'x&y' instead of what was supplied. Not repaired: the decode-on-assignment is by design shared between parsed text and Python values; a repair needs ~20 call sites in Client.py or an API change"),
  ("C15", "wrong-server/same-org-fid-different-url", "fixed", "FI profile cached from one server", "cache keyed by ORG-FID only: client of another URL sent A's DTPROFUP and used A's profile"),
 ]
